@@ -183,7 +183,12 @@ func NewSim(cfg Config, flags Flags, prof *Profile) *Sim {
 			perm[i] = i
 		}
 	}
-	for _, t := range perm {
+	for i, t := range perm {
+		if cfg.Gap > 0 && i == cfg.Split {
+			for k := 0; k < cfg.Gap; k++ {
+				s.pads = append(s.pads, ecs.TypeID(s.W, PadType(len(s.pads))))
+			}
+		}
 		s.ids[t] = U[t].ID(s.W)
 	}
 	var reg ecs.EventRegistry
